@@ -32,3 +32,83 @@ Fixpoint spell (s : list word) : option (list Z) :=
 
 (* the values a sentence denotes *)
 Definition denote (s : list word) : list av := map w_val s.
+
+(* ------------------------------------------------------------------------- *)
+(* The widened grammar (doc/Guide.adoc, "Pretty-printing Messages"): beside the
+   printer's own spelling of a value
+     - decimal integers with the suffix i            -12i
+     - hexadecimal integers, plain or with i / h     0x1f  -0x1fi  0xffh
+     - decimal floating point literals without the exact value, plain or with
+       the suffix f / d                                1.5  -0.25f  3.0d
+     - (the h suffix of decimal 64-bit integers, character escapes, true false
+        nil inf are spellings of the printer already)
+   and between two words white space that may hold comments
+     "%" any characters but a line break, line break.
+   A hexadecimal literal is given by its digits; its value is positional. *)
+Definition hexval (ds : list Z) : Z := fst (read_digs isxdigit 16 ds 0).
+
+Inductive isuf := SufNone | SufI | SufH.
+Definition isuf_text (s : isuf) : list Z :=
+  match s with SufNone => [] | SufI => [105] | SufH => [104] end.
+
+Inductive fsuf := FsNone | FsF | FsD.
+Definition fsuf_text (s : fsuf) : list Z :=
+  match s with FsNone => [] | FsF => [102] | FsD => [100] end.
+
+(* a decimal floating point literal "[-]<digits>.<digits>" *)
+Definition dec_literal (neg : bool) (n1 : Z) (fr : list Z) : list Z :=
+  (if neg then [45] else []) ++ dec_nat n1 ++ 46 :: fr.
+
+Inductive gtok :=
+| GPrinted (v : av) (o : popts) (cols : Z)
+| GDecI (v : Z)
+| GHex (neg : bool) (ds : list Z) (suf : isuf)
+| GFlt (neg : bool) (n1 : Z) (fr : list Z) (suf : fsuf).   (* 1.5  -0.25f  3.0d : no exact value *)
+
+Definition gtok_text (g : gtok) : option (list Z) :=
+  match g with
+  | GPrinted v o cols => match print_scalar o v cols with Some (t, _, _) => Some t | None => None end
+  | GDecI v => Some (print_d v ++ [105])
+  | GHex neg ds suf => Some ((if neg then [45] else []) ++ [48; 120] ++ ds ++ isuf_text suf)
+  | GFlt neg n1 fr suf => Some (dec_literal neg n1 fr ++ fsuf_text suf)
+  end.
+
+(* the value a word denotes; a 32-bit hexadecimal literal above 0x7fffffff
+   denotes the negative number with that bit pattern *)
+(* dec2f / dec2d: the float / double libc gives a decimal literal (oracles) *)
+Definition gtok_val (dec2f dec2d : list Z -> Z) (g : gtok) : av :=
+  match g with
+  | GPrinted v _ _ => v
+  | GDecI v => VI v
+  | GHex neg ds SufH => VH (sgn neg (hexval ds))
+  | GHex neg ds _ => VI (wrap32 (sgn neg (hexval ds)))
+  | GFlt neg n1 fr FsD => VD (dec2d (dec_literal neg n1 fr))
+  | GFlt neg n1 fr _ => VFl (dec2f (dec_literal neg n1 fr))
+  end.
+
+(* separators: non-empty white space, then any number of comments, each followed
+   by its line break and more white space *)
+Inductive cmts : list Z -> Prop :=
+| CM_nil : cmts []
+| CM_cons body ws rest :
+    Forall (fun c => c <> 10) body -> Forall (fun c => isspace c = true) ws -> cmts rest ->
+    cmts (37 :: body ++ 10 :: ws ++ rest).
+
+Record gword := { g_tok : gtok; g_ws : list Z; g_cmts : list Z }.
+Definition g_sep (w : gword) : list Z := g_ws w ++ g_cmts w.
+
+Fixpoint gspell (s : list gword) : option (list Z) :=
+  match s with
+  | [] => Some []
+  | w :: rest =>
+      match rest with
+      | [] => gtok_text (g_tok w)
+      | _ :: _ => match gtok_text (g_tok w), gspell rest with
+                  | Some t, Some T => Some (t ++ g_sep w ++ T)
+                  | _, _ => None
+                  end
+      end
+  end.
+
+Definition gdenote (dec2f dec2d : list Z -> Z) (s : list gword) : list av :=
+  map (fun w => gtok_val dec2f dec2d (g_tok w)) s.
